@@ -81,6 +81,16 @@ theorem C12_step_exact (r : Resources) (hb : Aligned r) (d : Dir) (hd : DirOK r 
         (err = .misaligned ∨ err = .bounds)) :=
   ⟨fun en => stepSel_name_ok_iff hb hd q en, fun fe => stepSel_name_err_iff hb hd q fe⟩
 
+/-- … and "matches" is a statement of the specification alone: `entryMatches r q e` (the predicate of
+`C12_first_match` and `C12_step_exact`) holds iff the entry's Name field stores some name `nm` —
+layout relation `NameAt`: an id with the high bit clear, or an even in-bounds offset of a
+length-prefixed UTF-16 string — that matches `q` under the documented rule `nameMatch` (ids as
+numbers, strings as `#<id>` / `#TYPE` / exact UTF-16 encoding).  An entry whose name cannot be read
+(odd or dangling string offset) matches nothing and is skipped. -/
+theorem C12_entry_matches_spec (r : Resources) (hb : Aligned r) (q : Name) (e : DirEntry) :
+    entryMatches r q e ↔ ∃ nm : RName, NameAt r e.name nm ∧ nameMatch nm q = true :=
+  entryMatches_iff hb q e
+
 /-! ## 2. The helpers are folds of the same step -/
 
 /-- `version_info`: the lookup, then `VersionInfo::try_from` (4-alignment of the bytes) -/
@@ -112,6 +122,9 @@ theorem C12_helpers_path_local (r : Resources) (ty name lang : Name) (p : List N
     rw [findResource_eq_walk, bindF_assoc]
     rfl
   · rw [image_eq_findResource r g id t ht, findResource_eq_walk]
+
+/-- the hypothesis `g.typeId = .ok t` holds for every group `GroupResource::new` accepts (`C12_safe_groups`) -/
+example : (⟨0, 1, 0⟩ : Group).typeId = .ok RT_ICON ∧ (⟨0, 2, 0⟩ : Group).typeId = .ok RT_CURSOR := ⟨rfl, rfl⟩
 
 /-- what the conversions at the end of a lookup do with the entry reached -/
 theorem C12_finishers (r : Resources) (d : Dir) (de : DataEntry) :
